@@ -135,6 +135,17 @@ class Prov:
             return set(s)
         out = set()
         for r, p in s:
+            if p == () and r[0] == "call" and r[1].split("::")[-1] == "enumerate" and len(r) >= 5 and (proj[:2] == ("[]", "1") or proj[:1] == ("1",)):
+                # the second component of what `x.iter().enumerate()` yields is an element of x
+                g = self.prog.by_def.get(r[2])
+                try:
+                    node = g.by_id(r[3]) if g is not None else None
+                except KeyError:
+                    node = None
+                if node is not None and hir.call_args(node):
+                    rest = proj[2:] if proj[:1] == ("[]",) else proj[1:]
+                    out |= self._proj(self.origins(g, hir.call_args(node)[0], r[4], stack), ("[]",) + tuple(rest), stack)
+                    continue
             if p == () and proj[0] == "[]":
                 # a collection stands for its elements (see _pushed_elems)
                 out |= self._proj({(r, p)}, proj[1:], stack)
